@@ -10,6 +10,7 @@ import (
 	"runtime/debug"
 	"sort"
 	"strings"
+	"sync/atomic"
 	"time"
 
 	"verif/harness/props"
@@ -101,6 +102,31 @@ func main() {
 	}
 
 	rep := &Report{Prop: p.ID, HB: sim.RaceEnabled, Seed: *seed, From: *from, Stats: map[string]int{}}
+	flush := func() {
+		if *out != "" {
+			writeJSON(*out, rep)
+		}
+	}
+	// watchdog: a run or a shrink attempt that makes no progress for 45 s (a task killed after a violation may have left
+	// a lock of the system under test held for ever) ends the process with whatever was found so far
+	go func() {
+		for {
+			time.Sleep(2 * time.Second)
+			limit := 45 * time.Second
+			if pending.Load() {
+				limit = 8 * time.Second
+			}
+			if time.Since(time.Unix(0, beat.Load())) > limit {
+				if pending.Load() {
+					// the unshrunk violation was flushed to the report file before shrinking started
+					os.Exit(0)
+				}
+				rep.Trouble = "watchdog: no progress for 45 s"
+				flush()
+				os.Exit(2)
+			}
+		}
+	}()
 	if *hashes {
 		rep.Hashes = map[string]uint64{}
 	}
@@ -118,6 +144,7 @@ func main() {
 		if prog != nil {
 			fmt.Fprintf(prog, "%d\n", i)
 		}
+		beat.Store(time.Now().UnixNano())
 		rec := &sim.Recorder{In: sim.NewPRNG(sim.Mix(*seed, uint64(i), hashID(p.ID)))}
 		o := opts
 		o.Trace = len(rep.Samples) < *samples
@@ -179,7 +206,27 @@ func main() {
 			v := Violation{Run: i, Class: res.Class, Detail: res.Detail, From: len(rec.Log)}
 			vals := rec.Values()
 			class := res.Class
+			file := fmt.Sprintf("%s/%s-seed%d-run%d.json", *rdir, p.ID, *seed, i)
+			if *rdir != "" {
+				// durable before shrinking starts
+				writeJSON(file, ReplayFile{Property: p.ID, Class: res.Class, Detail: res.Detail, Seed: *seed, Run: i, HB: sim.RaceEnabled,
+					Choices: vals, Hash: res.Hash, Case: res.Case, Stack: res.Stack})
+				v.Replay = file
+				v.Shrunk = len(vals)
+				rep.Violations = append(rep.Violations, v)
+				flush()
+				if res.Leaked {
+					// a goroutine of this run is still blocked inside the system under test: no further simulation
+					// (and no shrinking) may run in this process
+					rep.WallS = time.Since(start).Seconds()
+					flush()
+					os.Exit(0)
+				}
+				pending.Store(true)
+				rep.Violations = rep.Violations[:len(rep.Violations)-1]
+			}
 			best, _ := sim.Shrink(vals, class, 1500, func(s sim.Source) string {
+				beat.Store(time.Now().UnixNano())
 				r := runFn(s, opts)
 				if r.Trouble != "" {
 					return ""
@@ -198,13 +245,13 @@ func main() {
 				rp = &sim.Replay{Vals: best, Strict: true}
 				fr = runFn(rp, o2)
 			}
-			file := fmt.Sprintf("%s/%s-seed%d-run%d.json", *rdir, p.ID, *seed, i)
 			if *rdir != "" {
 				writeJSON(file, ReplayFile{Property: p.ID, Class: fr.Class, Detail: fr.Detail, Seed: *seed, Run: i, HB: sim.RaceEnabled,
 					Choices: best, Hash: fr.Hash, Case: fr.Case, Stack: fr.Stack})
 				v.Replay = file
 			}
 			v.Detail = fr.Detail
+			pending.Store(false)
 			rep.Violations = append(rep.Violations, v)
 			if len(rep.Violations) >= *maxViol {
 				break
@@ -222,6 +269,9 @@ func main() {
 		os.Exit(2)
 	}
 }
+
+var beat atomic.Int64
+var pending atomic.Bool
 
 var raceLogSeen int64
 
